@@ -3,7 +3,14 @@
 Every rooted ordered forest with <= N bodies x the full joint menu x a lattice of passive configurations
 (linear / polynomial joint springs and dampers incl. a sign-preserving negative quadratic coefficient, fixed and
 spatial tendons with a spring dead band and polynomial damping, gravcomp in {0,.5,1} per body, actuatorgravcomp,
-a fluid) x the passive disable flags {none, spring, damper, spring+damper, gravity} x a state lattice.
+a fluid) x the passive disable flags {none, spring, damper, spring+damper, gravity} x a state lattice
+x the sleep dimension: for every model with >= 2 kinematic trees, every single tree (thorough: every non-empty proper
+subset of the trees) is put to sleep through the documented path (enable flag sleep + sleep="init" on the tree's root
+body) and the same laws are checked on the dofs of the trees that stay awake, the sleeper being held at its
+(frozen) reset state; the passive-force arrays of the sleeping dofs must stay bit-identical to their values at
+reset.  With a tree asleep mj_passive and its helpers iterate over the awake-body / awake-dof index lists
+(body_awake_ind, dof_awake_ind) instead of 0..n-1, so every per-dof / per-joint / per-body lookup goes through
+one more level of indexing; the sleeper both precedes and follows awake trees in dof order.
 
 Oracle (numpy, from XMLreference joint/tendon stiffness, damping, springref, springlength, gravcomp and
 computation/index.rst gePassive, gePolynomial):
@@ -15,6 +22,7 @@ computation/index.rst gePassive, gePolynomial):
   at rest at the spring reference (v = 0, no gravcomp): qfrc_passive == 0 exactly
 """
 import math
+import re
 
 import numpy as np
 
@@ -54,6 +62,11 @@ JVAR = {
     "none": "",
 }
 VARIANTS = ["linear", "poly", "polyneg", "tendon_fixed", "tendon_fixed_auto", "tendon_spatial", "gravcomp", "actgravcomp", "actgravcomp_noact", "fluid"]
+# quick tier: one variant per engine code path that is filtered by the awake lists (joint springs + dof dampers,
+# tendon spring-damper, gravcomp, gravcomp routed by actuatorgravcomp, fluid); thorough: all variants x all flags
+SLEEP_VARIANTS_QUICK = ["linear", "polyneg", "tendon_fixed", "tendon_spatial", "gravcomp", "actgravcomp", "fluid"]
+SLEEP_ARRAYS = ["qfrc_spring", "qfrc_damper", "qfrc_gravcomp", "qfrc_fluid", "qfrc_passive"]
+WRAP_JOINT, WRAP_PULLEY, WRAP_SITE = 1, 2, 3
 KEY_ACTGC_NOACT = ("gravity compensation of actuatorgravcomp joints is dropped when the model has no actuators "
                    "(mj_fwdActuation returns before adding qfrc_gravcomp to qfrc_actuator)")
 
@@ -68,7 +81,48 @@ def gravcomp_assignments(n, thorough):
     return [c for i, c in enumerate(allc) if i % 6 in (0, 3)]
 
 
-def build(par, js, variant, gc=None):
+def tree_roots(par, js):
+    """First body of every kinematic tree, in tree order: a body with a joint whose ancestors are all jointless."""
+    out = []
+    for i in range(len(par)):
+        if js[i] == "none":
+            continue
+        a = par[i]
+        while a != -1 and js[a] == "none":
+            a = par[a]
+        if a == -1:
+            out.append(i)
+    return out
+
+
+def sleeper_sets(ntree, thorough):
+    """Non-empty proper subsets of the trees that are put to sleep: singletons (quick), all of them (thorough)."""
+    import itertools
+    if ntree < 2:
+        return []
+    sizes = range(1, ntree) if thorough else (1,)
+    return [c for k in sizes for c in itertools.combinations(range(ntree), k)]
+
+
+def tendon_coupled_trees(m):
+    """Trees touched by a tendon that spans >= 2 trees: the compiler forbids sleep='init' on them (every tendon of this
+    lattice has stiffness or damping)."""
+    blocked = set()
+    for t in range(m.ntendon):
+        trees = set()
+        for w in range(int(m.tendon_adr[t]), int(m.tendon_adr[t]) + int(m.tendon_num[t])):
+            wt, obj = int(m.wrap_type[w]), int(m.wrap_objid[w])
+            if wt == WRAP_PULLEY or wt == 0:
+                continue
+            b = int(m.jnt_bodyid[obj]) if wt == WRAP_JOINT else int(m.site_bodyid[obj]) if wt == WRAP_SITE else int(m.geom_bodyid[obj])
+            if m.body_treeid[b] >= 0:
+                trees.add(int(m.body_treeid[b]))
+        if len(trees) >= 2:
+            blocked |= trees
+    return blocked
+
+
+def build(par, js, variant, gc=None, sleepers=None):
     n = len(par)
     jn = U.joint_names(js)
     scal = [nm for nm, t in jn if t in ("hinge", "slide")]
@@ -106,8 +160,23 @@ def build(par, js, variant, gc=None):
     elif variant == "fluid":
         default = '<joint %s/>' % JVAR["linear"]
         option = dict(density="300", viscosity="0.4", wind="0.3 -0.2 0.1")
+    flags = {"energy": "enable"}
+    if sleepers:
+        flags["sleep"] = "enable"
     xml = U.std_tree_xml(par, js, default=default, sections=sections, world_extra=world_extra, jattr=jattr,
-                         option=A.option_elem(flags={"energy": "enable"}, **option))
+                         option=A.option_elem(flags=flags, **option))
+    if sleepers:
+        roots = tree_roots(par, js)
+        for t in sleepers:
+            xml = xml.replace('<body name="b%d" ' % roots[t], '<body name="b%d" sleep="init" ' % roots[t])
+        # the joint parameters differ from body to body (x (1 + i/2), sign structure unchanged), so that a parameter fetched
+        # through the wrong index (loop counter instead of the awake-list entry) changes the force
+        jv = re.search(r'<joint (stiffness="[^"]*") springref="[^"]*" (damping="[^"]*")/>', default)
+        if jv:
+            for i in range(1, n):
+                at = " ".join('%s="%s"' % (a.split("=")[0], " ".join("%.10g" % (float(x) * (1 + 0.5 * i)) for x in a.split('"')[1].split()))
+                              for a in jv.groups())
+                xml = xml.replace('<joint name="j%d_' % i, '<joint %s name="j%d_' % (at, i))
     if gc:
         for i, c in enumerate(gc):
             if c:
@@ -191,17 +260,27 @@ class Ref:
         return f
 
 
-def run_model(lib, part, par, js, variant, gc):
-    xml = build(par, js, variant, gc)
+def run_model(lib, part, par, js, variant, gc, sleepers=None, thorough=False):
+    """sleepers: None, or a tuple of tree indices put to sleep with sleep="init" (sleep flag enabled)."""
+    xml = build(par, js, variant, gc, sleepers)
     if xml is None:
         part.add("variant_not_applicable")
         return
+    if sleepers and variant.startswith("tendon"):
+        m0 = lib.load_xml(build(par, js, variant, gc))
+        blocked = tendon_coupled_trees(m0)
+        m0.free()
+        if blocked & set(sleepers):
+            part.add("sleep_not_applicable_intertree_tendon")      # documented: such trees are not allowed to sleep
+            return
     m = lib.load_xml(xml)
     d = lib.make_data(m)
     mi = U.MInfo(m)
     ref = Ref(lib, m, mi)
     nv = mi.nv
     ident = "parents=%s joints=%s variant=%s gravcomp=%s" % (par, js, variant, gc)
+    if sleepers:
+        ident += " asleep=%s" % (sleepers,)
     qs = A.qpos_lattice(m, limit=12)
     vs = A.qvel_lattice(nv)
     if nv:
@@ -209,11 +288,36 @@ def run_model(lib, part, par, js, variant, gc):
     g0 = np.array(m.opt.gravity, float)
     dof_actgc = np.array([ref.actgc[mi.dof_jntid[i]] for i in range(nv)], bool) if nv else np.zeros(0, bool)
     has_spring = bool(ref.k.any() or ref.kp.any() or ref.tk.any() or ref.tkp.any())
+    aw = np.ones(nv, bool)            # dofs of awake trees
+    flags = FLAGS
+    frozen = None
+    if sleepers:
+        want = np.isin(np.arange(m.ntree), sleepers)
+        if not np.array_equal(np.array(d.tree_asleep) >= 0, want):
+            part.violation("sleep=init trees are not the sleeping trees after mj_makeData " + ident,
+                           "tree_asleep=%s, expected exactly trees %s asleep (%s)" % (np.array(d.tree_asleep), sleepers, ident), {"xml": xml})
+            d.free()
+            m.free()
+            return
+        aw = ~np.isin(np.array(m.dof_treeid), sleepers)
+        # the sleeper is held at its reset state (anything else is a documented wake event); de-duplicate the lattice
+        q0 = np.array(d.qpos)
+        qaw = np.zeros(m.nq, bool)
+        for j in range(mi.njnt):
+            if m.body_treeid[m.jnt_bodyid[j]] not in sleepers:
+                qaw[mi.jnt_qposadr[j]:mi.jnt_qposadr[j] + {U.FREE: 7, U.BALL: 4}.get(mi.jnt_type[j], 1)] = True
+        qs = list({np.where(qaw, q, q0).tobytes(): np.where(qaw, q, q0) for q in qs}.values())
+        vs = list({np.where(aw, v, 0.0).tobytes(): np.where(aw, v, 0.0) for v in vs}.values())
+        frozen = {nm: np.array(getattr(d, nm))[~aw].tobytes() for nm in SLEEP_ARRAYS}
+        if not thorough:
+            flags = FLAGS[:1]
+        part.add("sleep_model_variants")
+        part.add("sleep_awake_before_sleeper" if aw[:int(np.argmin(aw))].any() else "sleep_sleeper_first")
 
     def bad(name, flabel, msg, rp):
         part.violation("%s [%s] %s" % (name, flabel, ident), "%s: %s (flags %s, %s)" % (name, msg, flabel, ident), rp)
 
-    for dflags, flabel in FLAGS:
+    for dflags, flabel in flags:
         if dflags == U.DSBL_GRAVITY and not ref.gc.any():
             continue
         m.opt.disableflags = dflags
@@ -226,20 +330,36 @@ def run_model(lib, part, par, js, variant, gc):
                 d.qvel[:] = v
                 lib.mj_forward(m, d)
                 rp = {"xml": xml, "qpos": q, "qvel": v, "disableflags": dflags}
-                nontriv = (par, js, variant, gc, flabel, qi) if (nv >= 2 and vi == len(vs) - 1 and qi > 0) else None
+                nontriv = (par, js, variant, gc, flabel, qi, sleepers) if (nv >= 2 and vi == len(vs) - 1 and qi > 0) else None
                 part.count(1, key=nontriv, sample={"parents": par, "joints": js, "variant": variant, "gravcomp": gc, "flags": flabel,
-                                                   "qpos": q, "qvel": v} if (qi == 1 and vi == 2 and dflags == 0) else None)
+                                                   "asleep": sleepers, "qpos": q, "qvel": v}
+                           if (qi == 1 and vi == 2 and dflags == 0) else None)
                 fs, fd, fg, ff, fp = (np.array(d.qfrc_spring), np.array(d.qfrc_damper), np.array(d.qfrc_gravcomp),
                                       np.array(d.qfrc_fluid), np.array(d.qfrc_passive))
+                if sleepers:
+                    part.add("sleep_evaluations")
+                    if not np.array_equal(np.array(d.tree_asleep) >= 0, want):
+                        bad("a sleeping tree held at its reset state woke up in mj_forward (or an awake one fell asleep)", flabel,
+                            "tree_asleep=%s" % np.array(d.tree_asleep), rp)
+                        break
+                    # the passive forces of a sleeping tree are frozen: nothing may write to its dofs
+                    for nm in SLEEP_ARRAYS:
+                        if np.array(getattr(d, nm))[~aw].tobytes() != frozen[nm]:
+                            bad("%s of a sleeping tree changed while it is asleep" % nm, flabel, "%s" % np.array(getattr(d, nm)), rp)
                 if not sp_on and not da_on:
                     # documented: all passive forces are disabled
                     for nm, arr in (("qfrc_passive", fp), ("qfrc_spring", fs), ("qfrc_damper", fd), ("qfrc_gravcomp", fg), ("qfrc_fluid", ff)):
-                        if np.any(arr != 0):
+                        if np.any(arr[aw] != 0):
                             bad("%s != 0 with spring and damper disabled" % nm, flabel, "%s" % arr, rp)
                     continue
                 rs = ref.spring(d, q) if sp_on else np.zeros(nv)
                 rd = ref.damper(d, v) if da_on else np.zeros(nv)
                 rg = ref.gravcomp(d, g)
+                if sleepers:
+                    # the laws are asserted on the dofs of the awake trees
+                    fs, fd, fg, ff, fp, rs, rd, rg = (x[aw] for x in (fs, fd, fg, ff, fp, rs, rd, rg))
+                    v = v[aw]
+                actgc = dof_actgc[aw]
                 e = relerr(fs, rs, atol=1e-3)
                 if e > TOL:
                     bad("qfrc_spring != -f(q (-) springref)", flabel, "rel err %.3g: %s vs %s" % (e, fs, rs), rp)
@@ -254,14 +374,14 @@ def run_model(lib, part, par, js, variant, gc):
                 if p > 1e-12 * (1 + float(np.abs(fd) @ np.abs(v))):
                     bad("qfrc_damper . qvel > 0 (damper adds energy)", flabel, "power %.3g" % p, rp)
                 # sum identity (documented composition of qfrc_passive)
-                tot = fs + fd + np.where(dof_actgc, 0.0, fg) + ff
+                tot = fs + fd + np.where(actgc, 0.0, fg) + ff
                 e = relerr(fp, tot, atol=1e-3)
                 if e > 1e-12:
                     bad("qfrc_passive != spring + damper + gravcomp + fluid", flabel, "rel err %.3g: %s vs %s" % (e, fp, tot), rp)
                 if dof_actgc.any() and not (dflags & U.DSBL_GRAVITY):
-                    # actuatorgravcomp: the force is routed to qfrc_actuator instead (no actuators in this lattice)
-                    fa = np.array(d.qfrc_actuator)
-                    e = relerr(fa, np.where(dof_actgc, fg, 0.0), atol=1e-3)
+                    # actuatorgravcomp: the force is routed to qfrc_actuator instead (the only actuator is an idle motor)
+                    fa = np.array(d.qfrc_actuator)[aw]
+                    e = relerr(fa, np.where(actgc, fg, 0.0), atol=1e-3)
                     if e > 1e-12:
                         if variant == "actgravcomp_noact":
                             part.violation(KEY_ACTGC_NOACT, "qfrc_actuator=%s, qfrc_passive excludes the gravcomp force %s of the "
@@ -269,7 +389,7 @@ def run_model(lib, part, par, js, variant, gc):
                         else:
                             bad("qfrc_actuator != gravcomp of actuatorgravcomp joints", flabel, "rel err %.3g" % e, rp)
         # gradient of the reported spring potential (gravity disabled so that energy[0] is the spring potential only)
-        if has_spring and sp_on and dflags == 0:
+        if has_spring and sp_on and dflags == 0 and not sleepers:
             m.opt.disableflags = U.DSBL_GRAVITY
             for qi, q in enumerate(qs):
                 d.qpos[:] = q
@@ -313,7 +433,7 @@ def run_model(lib, part, par, js, variant, gc):
                     bad("qfrc_spring != -d(reported potential)/dq", "gravity-off", "rel err %.3g: %s vs %s" % (e, fs, -grad), rp)
             m.opt.disableflags = dflags
     # rest at the reference: zero passive force exactly (tendon rest length inside the dead band / auto)
-    if variant in ("linear", "poly", "polyneg", "tendon_fixed_auto", "fluid"):
+    if variant in ("linear", "poly", "polyneg", "tendon_fixed_auto", "fluid") and not sleepers:
         m.opt.disableflags = 0
         if variant == "fluid":
             m.opt.wind = [0, 0, 0]
@@ -331,12 +451,12 @@ def run_model(lib, part, par, js, variant, gc):
 def _chunk(chunk):
     lib = mj.load()
     part = core.Part()
-    for par, js, variant, gc in chunk:
+    for par, js, variant, gc, sleepers, thorough in chunk:
         try:
-            run_model(lib, part, par, js, variant, gc)
+            run_model(lib, part, par, js, variant, gc, sleepers, thorough)
         except mj.MjError as e:
             part.violation("engine error parents=%s joints=%s variant=%s" % (par, js, variant), "unexpected mju_error/compile error: %s" % e,
-                           {"parents": par, "joints": js, "variant": variant, "gravcomp": gc})
+                           {"parents": par, "joints": js, "variant": variant, "gravcomp": gc, "asleep": sleepers})
     return part
 
 
@@ -346,24 +466,38 @@ def run(ctx):
     menu = None if not ctx.thorough else ["none", "hinge", "slide", "ball", "free", "hinge2"]
     items = []
     # canonical minimal replay of the known root cause first (in-process)
-    ctx.merge(_chunk([((-1,), ("hinge",), "actgravcomp_noact", (1.0,))]))
+    ctx.merge(_chunk([((-1,), ("hinge",), "actgravcomp_noact", (1.0,), None, ctx.thorough)]))
+    sleep_variants = VARIANTS if ctx.thorough else SLEEP_VARIANTS_QUICK
+    nsleep = 0
     for par, js in U.models(nmax, menu):
         n = len(par)
+        # sleep dimension: None (sleep disabled) + every admissible set of sleeping trees
+        ssets = sleeper_sets(len(tree_roots(par, js)), ctx.thorough)
         for variant in VARIANTS:
-            if variant in ("gravcomp", "actgravcomp", "actgravcomp_noact"):
-                for gc in gravcomp_assignments(n, ctx.thorough):
-                    if variant != "gravcomp" and not (gc[-1] and js[-1] != "none"):
-                        continue
-                    items.append((par, js, variant, gc))
-            else:
-                items.append((par, js, variant, None))
+            for sl in [None] + (ssets if variant in sleep_variants else []):
+                if variant in ("gravcomp", "actgravcomp", "actgravcomp_noact"):
+                    for gc in gravcomp_assignments(n, ctx.thorough):
+                        if variant != "gravcomp" and not (gc[-1] and js[-1] != "none"):
+                            continue
+                        items.append((par, js, variant, gc, sl, ctx.thorough))
+                        nsleep += sl is not None
+                else:
+                    items.append((par, js, variant, None, sl, ctx.thorough))
+                    nsleep += sl is not None
     core.pmap(ctx, _chunk, items, nchunks=min(len(items), 256))
     ctx.extra["model_variants"] = len(items)
+    ctx.extra["model_variants_with_a_tree_asleep_enumerated"] = nsleep
     ctx.rule = ("all rooted ordered forests with <=%d bodies x full product of the joint menu %s x passive variants %s (gravcomp: all "
                 "assignments of {0,.5,1} to the bodies for <=2 bodies, a covering third for 3) x disable flags {none, spring, damper, "
-                "spring+damper, gravity}; per model a covering lattice of <=12 configurations x {zero, unit_i, mixed, -1.7*mixed} velocities; "
+                "spring+damper, gravity} x sleep dimension {sleep disabled} U {every %s of the trees of a model with >=2 trees asleep via "
+                "sleep=init + enable flag, variants %s, flags %s; laws asserted on the awake dofs, sleeping dofs' passive arrays bit-frozen, "
+                "no gradient / rest test}; per model a covering lattice of <=12 configurations x {zero, unit_i, mixed, -1.7*mixed} velocities; "
                 "gradient of the reported potential by central FD (eps=%g) at every configuration; rest-at-reference state. "
-                "non-trivial = (model,variant,flags,configuration) with nv>=2 at a non-reference configuration (all its velocities count once)" % (nmax, menu or list(A.JOINTS), VARIANTS, FD_EPS))
+                "non-trivial = (model,variant,flags,configuration) with nv>=2 at a non-reference configuration (all its velocities count once)" % (nmax, menu or list(A.JOINTS), VARIANTS,
+                                                   "non-empty proper subset" if ctx.thorough else "single tree", sleep_variants,
+                                                   "all" if ctx.thorough else "{none}", FD_EPS))
     ctx.assumptions = ["tendon length/Jacobian, body-com Jacobian from the engine (C07)",
+                       "a sleeping tree is held at its reset configuration with zero velocity (any other value is a documented wake event); trees "
+                       "coupled by a spring/damper tendon cannot be put to sleep (documented) and are counted as sleep_not_applicable_intertree_tendon",
                        "tolerance 1e-10 relative on forces, 1e-6 on the finite-difference gradient, 1e-13 absolute at rest",
                        "docs disagree on the configuration used for automatic tendon spring length (qpos0 vs qpos_spring); the auto-length variant has springref = 0"]
